@@ -70,7 +70,12 @@
 //! template.
 
 use std::collections::{BTreeMap, HashMap, HashSet};
+#[cfg(not(quantus_network_qp_zk_circuits_verif))]
 use std::time::{Duration, Instant};
+#[cfg(quantus_network_qp_zk_circuits_verif)]
+use std::time::Duration;
+#[cfg(quantus_network_qp_zk_circuits_verif)]
+use verif_hooks::Instant;
 
 use anyhow::{anyhow, bail, ensure, Result};
 use plonky2::field::types::PrimeField64;
@@ -374,6 +379,8 @@ impl ProofPool {
         }
         self.verifies_in_window += 1;
 
+        #[cfg(quantus_network_qp_zk_circuits_verif)]
+        verif_hooks::count_verify();
         self.verifier.verify(proof.clone()).map_err(|e| {
             anyhow!(
                 "refusing to queue invalid private-batch proof: verification failed: {}",
@@ -640,6 +647,117 @@ impl ProofPool {
             .fold(0u64, |acc, sum| acc.saturating_add(sum));
 
         Ok((key, nullifiers, volume))
+    }
+}
+
+/// Verification hooks (compiled only with `--cfg quantus_network_qp_zk_circuits_verif`): a virtual clock that
+/// follows real time unless a test freezes it, a counter of cryptographic verification
+/// calls made by `push`, and a read-only projection of the pool's private state.
+#[cfg(quantus_network_qp_zk_circuits_verif)]
+pub mod verif_hooks {
+    use super::{BatchKey, BytesDigest, ProofPool};
+    use std::cell::Cell;
+    use std::sync::OnceLock;
+    use std::time::Duration;
+
+    thread_local! {
+        static FROZEN: Cell<Option<Duration>> = const { Cell::new(None) };
+        static VERIFY_CALLS: Cell<u64> = const { Cell::new(0) };
+    }
+
+    fn real_elapsed() -> Duration {
+        static EPOCH: OnceLock<std::time::Instant> = OnceLock::new();
+        EPOCH.get_or_init(std::time::Instant::now).elapsed()
+    }
+
+    /// Stand-in for `std::time::Instant`: an offset from a process-wide epoch.
+    #[derive(Debug, Clone, Copy, PartialEq, Eq, PartialOrd, Ord)]
+    pub struct Instant(Duration);
+
+    impl Instant {
+        pub fn now() -> Self {
+            Instant(FROZEN.with(|f| f.get()).unwrap_or_else(real_elapsed))
+        }
+        pub fn duration_since(&self, earlier: Instant) -> Duration {
+            self.0.checked_sub(earlier.0).unwrap_or_default()
+        }
+        pub fn saturating_duration_since(&self, earlier: Instant) -> Duration {
+            self.0.checked_sub(earlier.0).unwrap_or_default()
+        }
+        pub fn verif_offset(&self) -> Duration {
+            self.0
+        }
+    }
+
+    /// Freeze the calling thread's clock at `at` (offset from the epoch); `None` resumes real time.
+    pub fn set_virtual_now(at: Option<Duration>) {
+        FROZEN.with(|f| f.set(at));
+    }
+
+    pub fn count_verify() {
+        VERIFY_CALLS.with(|c| c.set(c.get() + 1));
+    }
+
+    /// Number of `verifier.verify` calls `push` has made on this thread.
+    pub fn verify_calls() -> u64 {
+        VERIFY_CALLS.with(|c| c.get())
+    }
+
+    #[derive(Debug, Clone)]
+    pub struct ProjectedProof {
+        pub public_inputs: Vec<u64>,
+        pub nullifiers: Vec<BytesDigest>,
+        pub volume: u64,
+        pub admitted_at: Duration,
+    }
+
+    #[derive(Debug, Clone)]
+    pub struct ProjectedBucket {
+        pub key: BatchKey,
+        pub proofs: Vec<ProjectedProof>,
+        pub last_snapshot_at: Option<Duration>,
+    }
+
+    #[derive(Debug, Clone)]
+    pub struct Projection {
+        pub buckets: Vec<ProjectedBucket>,
+        pub index: Vec<(BytesDigest, BatchKey)>,
+        pub verify_window_started: Duration,
+        pub verifies_in_window: usize,
+    }
+
+    impl ProofPool {
+        pub fn verif_project(&self) -> Projection {
+            use plonky2::field::types::PrimeField64;
+            Projection {
+                buckets: self
+                    .buckets
+                    .iter()
+                    .map(|(key, b)| ProjectedBucket {
+                        key: *key,
+                        proofs: b
+                            .proofs
+                            .iter()
+                            .map(|q| ProjectedProof {
+                                public_inputs: q
+                                    .proof
+                                    .public_inputs
+                                    .iter()
+                                    .map(|f| f.to_canonical_u64())
+                                    .collect(),
+                                nullifiers: q.nullifiers.clone(),
+                                volume: q.volume,
+                                admitted_at: q.admitted_at.verif_offset(),
+                            })
+                            .collect(),
+                        last_snapshot_at: b.last_snapshot_at.map(|i| i.verif_offset()),
+                    })
+                    .collect(),
+                index: self.nullifier_index.iter().map(|(n, k)| (*n, *k)).collect(),
+                verify_window_started: self.verify_window_started.verif_offset(),
+                verifies_in_window: self.verifies_in_window,
+            }
+        }
     }
 }
 
